@@ -183,4 +183,19 @@ Proof.
   - rewrite df_limit_eff in Hdef. exact Hdef.
 Qed.
 
+(* ---------- the subscript entry point ---------- *)
+Lemma getitem_is_collect : forall (s : store A) (cols : list Z),
+  step s (OpGetitem cols) = step s (OpCollect cols None).
+Proof. intros s cols. reflexivity. Qed.
+
+(* df[...] with a position outside 0..width-1 (negative ones included) never yields a column *)
+Lemma getitem_outside_never_ok : forall (w : nat) (k : backing) (rows : list (list A)) (cols : list Z),
+  rectangular A w rows -> rows <> [] ->
+  (exists c, In c cols /\ ((c < 0)%Z \/ (Z.of_nat w <= c)%Z)) ->
+  forall res, snd (step (frame_init k (map RTuple rows)) (OpGetitem cols)) <> FCols (Ok res).
+Proof.
+  intros w k rows cols Hr Hne Hex res. cbn [step snd]. rewrite frame_init_contents.
+  intros H. injection H as H. exact (df_conv_outside_never_ok w rows cols None Hr Hne Hex res H).
+Qed.
+
 End FrameLemmas.
